@@ -26,6 +26,20 @@ class TranslateError(Exception):
     pass
 
 
+
+def _write_if_changed(path, text):
+    """atomic, and only when the content differs: concurrent checks regenerate the same files"""
+    try:
+        if open(path).read() == text:
+            return
+    except OSError:
+        pass
+    tmp = "%s.tmp%d" % (path, os.getpid())
+    with open(tmp, "w") as f:
+        f.write(text)
+    os.replace(tmp, path)
+
+
 def strip_comments(src):
     return re.sub(r"//[^\n]*", "", src)
 
@@ -161,8 +175,7 @@ def main():
            "the child `id`; the schema of a `list` node is its items). -/",
            "def schema : Tm → List Tm"] + lines + ["", "end RlModel.Wf", ""]
     os.makedirs(outdir, exist_ok=True)
-    with open(os.path.join(outdir, "Schema.lean"), "w") as f:
-        f.write("\n".join(out))
+    _write_if_changed(os.path.join(outdir, "Schema.lean"), "\n".join(out))
     print("gen_schema: %d arms -> %s" % (len(lines), os.path.join(outdir, "Schema.lean")))
 
 
